@@ -40,6 +40,7 @@ type Req struct {
 	// answer
 	Answered    bool
 	Outcome     string
+	MetaJSON    string // the meta object of the answer, if any
 	AnsStep     int
 	AnsCut      int
 	Delivered   bool
